@@ -770,7 +770,7 @@ impl Prop for C05 {
         "C05"
     }
     fn rule(&self) -> &'static str {
-        "exhaustive: all 256 DW_EH_PE encoding bytes as the FDE address encoding x byte order x address size 2/4/8 x all 8 subsets of {section, text, data} bases: accept/reject and decoded pointer vs the model; random: .eh_frame / .debug_frame sections of 1-3 CIEs (versions 1/3/4, 32/64-bit, augmentations z + permuted subsets of R,L,P,S, generated pointer encodings for R/L/P incl. indirect, aligned, omit and invalid bytes) and 0-8 FDEs in generated order (FDEs before their CIE, shared and interleaved CIEs), zero terminator, base-address subsets, boundary ranges (0, 1, adjacent). Oracle: the assembler's record + pointer model: every entry at its offset with every encoded field, each FDE bound to the CIE its pointer designates (also through fde_from_offset with a caching get_cie), expected error kinds for unusable encodings; fde_for_address / unwind_info_for_address at and around every FDE boundary = exhaustive scan in section order; .eh_frame_hdr tables (sdata2/udata2/sdata4/udata4/sdata8/udata8 x absptr/datarel/pcrel) built from the model: iter, nth, lookup (last row <= address), pointer_to_offset, fde_for_address, unwind_info_for_address. Non-trivial = >=2 CIEs, >=3 FDEs and a non-absptr FDE encoding; distinct by choice string / enumeration index."
+        "exhaustive: all 256 DW_EH_PE encoding bytes as the FDE address encoding x byte order x address size 2/4/8 x all 8 subsets of {section, text, data} bases: accept/reject and decoded pointer vs the model; random: .eh_frame / .debug_frame sections of 1-3 CIEs (versions 1/3/4, 32/64-bit, augmentations z + permuted subsets of R,L,P,S, generated pointer encodings for R/L/P incl. indirect, aligned, omit and invalid bytes) and 0-8 FDEs in generated order (FDEs before their CIE, shared and interleaved CIEs), zero terminator, base-address subsets, boundary ranges (0, 1, adjacent). Oracle: the assembler's record + pointer model: every entry at its offset with every encoded field, each FDE bound to the CIE its pointer designates (also through fde_from_offset with a caching get_cie), expected error kinds for unusable encodings; fde_for_address / unwind_info_for_address at and around every FDE boundary = exhaustive scan in section order; .eh_frame_hdr tables (sdata2/udata2/sdata4/udata4/sdata8/udata8 x absptr/datarel/pcrel) built from the model: iter, nth, lookup (last row <= address), pointer_to_offset, fde_for_address, unwind_info_for_address. Non-trivial = >=2 CIEs, >=3 FDEs and a non-absptr FDE encoding; distinct by choice string / enumeration index. Later additions: augmentation data longer than the known fields; the BaseAddresses setters in any order; the std Iterator view of the entries iterator."
     }
     fn assumptions(&self) -> Vec<&'static str> {
         vec![
